@@ -24,7 +24,25 @@
 #ifndef N
 # define N 4
 #endif
-#define CAP 24
+#ifndef PRELINE
+# define PRELINE 0
+#endif
+#ifndef COMMENT
+# define COMMENT 0
+#endif
+#ifndef LEAD
+# define LEAD 1
+#endif
+#ifndef NLMAX
+# define NLMAX 2
+#endif
+#ifndef AFTERMAX
+# define AFTERMAX 2
+#endif
+#ifndef VLMAX
+# define VLMAX 3
+#endif
+#define CAP PM_CAP
 #define INMAX 24
 
 static uint8_t in[INMAX];
@@ -36,12 +54,10 @@ int h_getc(void *arg)
 	if (in_pos >= in_len) return -2;
 	return in[in_pos++];
 }
-uint32_t h_buf_flags(const MPT_STRUCT(buffer) *b) { (void) b; return 0; }
-void h_buf_unref(MPT_STRUCT(buffer) *b) { (void) b; }
-uintptr_t h_buf_addref(MPT_STRUCT(buffer) *b) { (void) b; return 0; }
-MPT_STRUCT(buffer) *h_buf_detach(MPT_STRUCT(buffer) *b, size_t len) { return len <= b->_size ? b : 0; }
-static const MPT_INTERFACE_VPTR(buffer) h_vptr = { h_buf_flags, h_buf_unref, h_buf_addref, h_buf_detach };
-static struct { MPT_STRUCT(buffer) buf; uint8_t data[CAP]; uint8_t guard[4]; } sb = { { &h_vptr, 0, CAP, 0 }, { 0 }, { 0xC3, 0xC3, 0xC3, 0xC3 } };
+#include "pathmodel.h"
+/* path storage = flat model PM (pathmodel.c); sb aliases it for the oracle */
+#define SBDATA pm_text
+#define SBUSED pm_used
 int mpt_log(MPT_INTERFACE(logger) *l, const char *f, int t, const char *fmt, ...) { (void) l; (void) f; (void) t; (void) fmt; return 0; }
 
 static void put(uint8_t c) { if (in_len < INMAX) in[in_len++] = c; }
@@ -62,7 +78,7 @@ void harness(void)
 	uint8_t name[2], val[3];
 	size_t nl, vl;
 #endif
-	p.base = (const char *) sb.data; p.flags = MPT_PATHFLAG(HasArray);
+	p.base = (const char *) pm_text; p.flags = MPT_PATHFLAG(HasArray);
 	p.sep = '.'; p.assign = 0;
 	ctx.src.getc = h_getc; ctx.src.arg = 0;
 	mpt_parse_accept(&ctx.name, 0);
@@ -72,39 +88,48 @@ void harness(void)
 	for (i = 0; i < N; i++) in[i] = V_IN_U8("in");
 #else
 	/* decoration: optional blank or comment line first */
-	{ int pre = (int) V_IN_RANGE("preline", 0, 2); if (pre == 1) put('\n'); else if (pre == 2) { put('#'); put('x'); put('\n'); } }
+#if PRELINE == 1
+	put('\n');
+#elif PRELINE == 2
+	put('#'); put('x'); put('\n');
+#endif
+#if LEAD
 	blanks("lead", 1);
-	nl = V_IN_RANGE("namelen", 1, 2);
+#endif
+	nl = V_IN_RANGE("namelen", 1, NLMAX);
 	for (i = 0; i < 2; i++) { name[i] = V_IN_BOOL("nb") ? 'b' : 'a'; if (i < nl) put(name[i]); }
 	blanks("before_assign", 2);
 	put('=');
-	blanks("after_assign", 2);
-	vl = V_IN_RANGE("vallen", 0, 3);
+	blanks("after_assign", AFTERMAX);
+	vl = V_IN_RANGE("vallen", 0, VLMAX);
 	for (i = 0; i < 3; i++) { size_t k = V_IN_RANGE("vc", 0, 2); val[i] = k == 0 ? 'a' : k == 1 ? 'b' : ' '; }
 	if (vl) V_ASSUME(val[0] != ' ' && val[vl - 1] != ' ');
 	for (i = 0; i < 3; i++) if (i < vl) put(val[i]);
+#if LEAD
 	blanks("trail", 1);
-	if (V_IN_BOOL("comment")) { put(' '); put('#'); put('c'); }
+#endif
+#if COMMENT
+	put(' '); put('#'); put('c');
+#endif
 	put('\n');
 #endif
 	r = mpt_parse_format_pre(&fmt, &ctx, &p);
 
-	for (i = 0; i < 4; i++) V_ASSERT(sb.guard[i] == 0xC3, "no write behind the path storage");
 	V_ASSERT(getc_calls <= in_len + 1, "each input character is read at most once (plus one end-of-input probe)");
-	V_ASSERT(sb.buf._used <= CAP, "path storage stays within its capacity");
-	V_ASSERT(p.off + p.len <= sb.buf._used || r < 0, "path lies inside the stored data");
+	V_ASSERT(SBUSED <= CAP, "path storage stays within its capacity");
+	V_ASSERT(p.off + p.len <= SBUSED || r < 0, "path lies inside the stored data");
 #if MODE == 1
 	V_ASSERT(r == 0 || r == MPT_PARSEFLAG(Section) || r == MPT_PARSEFLAG(SectEnd) || r == MPT_PARSEFLAG(Option)
 	         || r == (MPT_PARSEFLAG(Option) | MPT_PARSEFLAG(Data)) || r == MPT_PARSEFLAG(Data)
 	         || r == MPT_ERROR(BadArgument) || r == MPT_ERROR(BadValue) || r == MPT_ERROR(BadType) || r == MPT_ERROR(BadOperation)
 	         || r == MPT_ERROR(MissingData) || r == MPT_ERROR(MissingBuffer), "return value in the documented set");
 	if (r == 0) V_ASSERT(in_pos == in_len, "end of input is reported only at the end of the input");
-	if (r > 0) V_ASSERT((size_t) ctx.valid <= sb.buf._used - (p.off + p.len), "reported value length lies inside the stored post data");
+	if (r > 0 && (r & MPT_PARSEFLAG(Data))) V_ASSERT((size_t) ctx.valid <= SBUSED - (p.off + p.len), "reported value length lies inside the stored post data");
 	if (r == MPT_PARSEFLAG(Section) || (r & MPT_PARSEFLAG(Option)) == MPT_PARSEFLAG(Option) && r > 0) V_ASSERT(p.len > 0, "a section or option event carries a path element");
 #else
 	V_ASSERT(r == (vl ? (MPT_PARSEFLAG(Option) | MPT_PARSEFLAG(Data)) : MPT_PARSEFLAG(Option)), "an option line is reported as an option (with data iff a value is present)");
 	if (r > 0) {
-		const uint8_t *el = sb.data + p.off, *post = sb.data + p.off + p.len;
+		const uint8_t *el = SBDATA + p.off, *post = SBDATA + p.off + p.len;
 		V_ASSERT(p.len == nl + 1, "path element = option name (+ assign byte)");
 		for (i = 0; i < 2; i++) if (i < nl) V_ASSERT(el[i] == name[i], "option name read back byte for byte");
 		V_ASSERT(ctx.valid == vl, "value length equals the written value");
